@@ -2,6 +2,7 @@
 package reqcheck
 
 import (
+	"bytes"
 	"context"
 	"errors"
 	"fmt"
@@ -620,6 +621,14 @@ func addDefaults(t *rapid.T, u *tm.Universe) {
 				fd.Default = &tm.Value{K: tm.BOOL, B: rapid.Bool().Draw(t, "defBool")}
 			case tm.BYTE, tm.I16, tm.I32, tm.I64:
 				fd.Default = &tm.Value{K: fd.T.K, I: tm.GenInt(t, fd.T.K)}
+				if rapid.IntRange(0, 3).Draw(t, "defEnumConst") == 0 {
+					// the default written as an enum constant (also on fields that are not i32)
+					c := []struct {
+						n string
+						v int64
+					}{{"VE.V0", 0}, {"VE.V1", 1}, {"VE.V7", 7}, {"VE.V100", 100}}[rapid.IntRange(0, 3).Draw(t, "defEnum")]
+					fd.Default, fd.DefaultRef = &tm.Value{K: fd.T.K, I: c.v}, c.n
+				}
 			case tm.DOUBLE:
 				f := []float64{0, 1.5, -2.25, 100, 1e10, 0.001, -7, 123456.789}[rapid.IntRange(0, 7).Draw(t, "defDouble")]
 				fd.Default = &tm.Value{K: tm.DOUBLE, F: math.Float64bits(f)}
@@ -733,8 +742,67 @@ func gen(t *rapid.T) Case {
 func Prop(name string) pbt.Prop[Case] {
 	return pbt.Prop[Case]{
 		Name:  name,
-		Rule:  "generated IDL with any mix of requiredness and scalar defaults at any depth (ids beyond 64/256/32767, recursion) parsed with SetOptionalBitmap x UseDefaultValue; inputs presenting any subset of the fields (absent, null, present; required ones may be missing; unknown members / undeclared wire fields) x all 2^4 combinations of WriteRequireField/WriteDefaultField/WriteOptionalField/DisallowUnknownField (generic: WriteDefault/NotCheckRequireNess/DisallowUnknow), in a third of the cases installed through SetOptions on converters created with another combination; in a quarter of the cases the document starts with a list of 40..700 one-digit i64 (output four times the input: the output buffer grows while structs are open); j2t in a third of the cases through DoInto with a caller buffer of 0..256 bytes (grown while structs are open); the harness's truth-table model gives, per struct instance, the error or the exact set of fields with their values (present ones unchanged, absent ones filled with the parsed default or the zero value); j2t output, t2j output and generic MarshalTo onto a separately parsed descriptor (equal, or in a third of the cases declaring additional absent fields in some structs, so that the rules apply with a differing target at every depth incl. list elements and map values) are decoded and compared field by field (order of members free); error codes ErrMissRequiredField / ErrUnknownField; non-trivial = some declared field absent",
+		Rule:  "generated IDL with any mix of requiredness and scalar defaults (literals, and enum constants on integer fields of every width) at any depth (ids beyond 64/256/32767, recursion) parsed with SetOptionalBitmap x UseDefaultValue; inputs presenting any subset of the fields (absent, null, present; required ones may be missing; unknown members / undeclared wire fields) x all 2^4 combinations of WriteRequireField/WriteDefaultField/WriteOptionalField/DisallowUnknownField (generic: WriteDefault/NotCheckRequireNess/DisallowUnknow), in a third of the cases installed through SetOptions on converters created with another combination; in a quarter of the cases the document starts with a list of 40..700 one-digit i64 (output four times the input: the output buffer grows while structs are open); j2t in a third of the cases through DoInto with a caller buffer of 0..256 bytes (grown while structs are open); the harness's truth-table model gives, per struct instance, the error or the exact set of fields with their values (present ones unchanged, absent ones filled with the parsed default or the zero value); j2t output, t2j output and generic MarshalTo onto a separately parsed descriptor (equal, or in a third of the cases declaring additional absent fields in some structs, so that the rules apply with a differing target at every depth incl. list elements and map values) are decoded and compared field by field (order of members free); error codes ErrMissRequiredField / ErrUnknownField; non-trivial = some declared field absent",
 		Gen:   gen,
 		Check: check,
+	}
+}
+
+// ---------------------------------------------------------------------------
+// capacity sweep: the result of JSON -> Thrift must not depend on the capacity of the caller's buffer
+
+func checkSweep(c *pbt.Ctx, cs Case) {
+	popts := thrift.Options{SetOptionalBitmap: cs.O.SetOptionalBitmap, UseDefaultValue: cs.O.UseDefaultValue}
+	comp, err := tm.CompileUniverse(cs.U, popts)
+	if err != nil {
+		c.Failf("harness-idl", "IDL rejected: %v\n%s", err, cs.U.Render())
+	}
+	ctx := context.Background()
+	co := conv.Options{WriteRequireField: cs.O.WriteRequire, WriteDefaultField: cs.O.WriteDefault, WriteOptionalField: cs.O.WriteOptional, DisallowUnknownField: cs.O.Disallow}
+	cv := j2t.NewBinaryConv(co)
+	text := append(make([]byte, 0, len(cs.Text)+16), cs.Text...)
+	big := make([]byte, 0, 1<<20)
+	var err0 error
+	if !c.Protect("", func() { err0 = cv.DoInto(ctx, comp.Root, text, &big) }) {
+		return
+	}
+	var ref *tm.Value
+	if err0 == nil {
+		ref, _ = tm.DecodeStrict(cs.U.Root.K, big)
+	}
+	hi := len(big) + 4
+	if hi > 2600 {
+		hi = 2600
+	}
+	c.Step("DoInto with every capacity 0..%d (large-buffer result: %d bytes, err=%v)", hi, len(big), err0)
+	for capn := 0; capn <= hi; capn++ {
+		buf := make([]byte, 0, capn)
+		var e error
+		if !c.Protect("", func() { e = cv.DoInto(ctx, comp.Root, text, &buf) }) {
+			return
+		}
+		if (e == nil) != (err0 == nil) || (e == nil && !bytes.Equal(buf, big)) {
+			reg := ""
+			if e == nil && ref != nil && danglingHeader(buf, ref, cs.U.Root.K, func(g *tm.Value) bool { return tm.DiffFieldsByID(ref, g) == "" }) {
+				reg = RegionPrefix + "j2t-native-null-last-member-regrow"
+			}
+			if c.Fail(reg, "capacity-dependent", "DoInto with capacity %d: err=%v, %d bytes; with a large buffer: err=%v, %d bytes\ndocument: %s", capn, e, len(buf), err0, len(big), cs.Show) {
+				return
+			}
+		}
+	}
+	c.NonTrivial()
+	if len(big) > len(cs.Text) {
+		c.Class("output>document")
+	}
+}
+
+// SweepProp: the same documents as Prop, converted into caller buffers of every capacity.
+func SweepProp(name string) pbt.Prop[Case] {
+	return pbt.Prop[Case]{
+		Name:  name,
+		Rule:  "the documents, descriptors and option sets of the requiredness table (incl. documents whose output is four times their size, null members, absent fields that are filled in); j2t.DoInto into caller buffers of every capacity from 0 to the output size (at most 2600): error-ness and bytes must equal the conversion into a 1 MiB buffer; every case is non-trivial",
+		Gen:   gen,
+		Check: checkSweep,
 	}
 }
